@@ -17,8 +17,13 @@ Five streams, all on the REAL solvers imported from /repo:
        processes), with costs / penalties that modify their argument in place -> identical trajectories;
        Model/Schedule.lean `step2Proc` replayed with the evaluation order and sharing discipline the map really
        used -> identical states and evaluation log, entry by entry.
- ens   monitor: Lattice / Buckshot ensembles with Nelder-Mead / Powell members, run to completion versus
-       Solve(step=True) versus a Step loop, under the same maps -> identical results.
+ ens   monitor + correspondence: Lattice / Buckshot / Mixed (thorough: Sparsity) ensembles with Nelder-Mead / Powell members
+       (nested solver given as a class or as a configured instance), with and without strict ranges, with terminations
+       that read the energy history, the population (CandidateRelativeTolerance) or both, members that stop at different
+       iterations: run to completion versus Solve(step=True) versus Step loops versus Steps followed by a Solve (step-wise
+       or run-to-completion), under the same maps -> identical results AND identical complete member states; the
+       control-logic model of the mapped member calls (Model/Schedule.lean `ensMemberStep` / `ensMemberSolve`: `_live`
+       flag, deferred decoration, stop test) predicts per ensemble call and member the decorations, iterations and flag.
 """
 import sys, os, time, math, json, struct, itertools, pickle, random as _random
 import numpy as np
@@ -53,6 +58,12 @@ THEOREMS = [
     "MysticVerif.C07.trajectory_config_perm",
     "MysticVerif.C07.ensemble_any_schedule",
     "MysticVerif.C07.ensemble_step_eq_solve",
+    "MysticVerif.C07.ens_finished_member_untouched",
+    "MysticVerif.C07.ens_live_step_eq_solve",
+    "MysticVerif.C07.ens_steps_then_solve",
+    "MysticVerif.C07.ens_decorates_once",
+    "MysticVerif.C07.ens_settled_not_redecorated",
+    "MysticVerif.C07.ens_untoggled_witness",
 ]
 
 
@@ -122,13 +133,38 @@ def deepcopy_map(log=None):
     return dcp
 
 
-def thread_map(nthreads=3):
+def dillcopy_map(log=None):
+    """the semantics of a process-based map without the processes: every item AND every result travels through
+    dill (what a worker receives / sends back is a reconstruction, closures included), evaluated last to first"""
+    import dill
+
+    def dcp(f, *seqs, **kw):
+        items = list(zip(*seqs)); n = len(items)
+        out = [None] * n
+        for i in reversed(range(n)):
+            out[i] = dill.loads(dill.dumps(f(*dill.loads(dill.dumps(items[i])))))
+        return out
+    return dcp
+
+
+def thread_map(nthreads=3, keep=False):
+    """keep=True: one pool for all calls of this map (step-wise ensembles call the map once per Step); `thr.close()`"""
     from multiprocessing.pool import ThreadPool
+    pool = []
 
     def thr(f, *seqs, **kw):
         items = list(zip(*seqs))
+        if keep:
+            if not pool:
+                pool.append(ThreadPool(nthreads))
+            return pool[0].map(lambda a: f(*a), items, chunksize=1)
         with ThreadPool(nthreads) as p:
             return p.map(lambda a: f(*a), items, chunksize=1)
+
+    def close():
+        while pool:
+            pool.pop().terminate()
+    thr.close = close
     return thr
 
 
@@ -153,7 +189,11 @@ def fork_map(nproc=3, use_dill=False):
                 code = 0
                 try:
                     os.close(r)
-                    res = [(i, f(*items[i])) for i in reversed(idx)]
+                    try:
+                        res = [(i, f(*items[i])) for i in reversed(idx)]
+                    except Exception as exc:            # what the worker raised travels back as text
+                        res = [("__raised__", "%s: %s" % (type(exc).__name__, exc))]
+                        code = 3
                     data = dumps(res)
                     with os.fdopen(wfd, "wb") as fh:
                         fh.write(data)
@@ -168,7 +208,12 @@ def fork_map(nproc=3, use_dill=False):
                 data = fh.read()
             _, st = os.waitpid(pid, 0)
             if st != 0 or not data:
-                raise RuntimeError("forked map worker failed (status %r)" % (st,))
+                why = ""
+                try:
+                    why = ": %s" % (loads(data)[0][1],) if data else ""
+                except Exception:
+                    pass
+                raise RuntimeError("forked map worker failed (status %r)%s" % (st, why))
             for i, v in loads(data):
                 out[i] = v
         return out
@@ -1302,12 +1347,122 @@ def map_stream(seed, shard, ncases, tier, hist, findings, samples, ks=None):
 
 
 # =====================================================================================================
-# stream `ens`: ensembles, step-wise versus run-to-completion, under the same maps
+# stream `ens`: ensembles, step-wise versus run-to-completion (and mixed driving), under the same maps
 # =====================================================================================================
-def run_ensemble(case, mapper, mode):
-    from mystic.solvers import LatticeSolver, BuckshotSolver, NelderMeadSimplexSolver, PowellDirectionalSolver
-    from mystic.monitors import Monitor
+# What is at stake (abstract_ensemble_solver.py `_step` l.637-661, `_solve` l.769-795; abstract_solver.py `Step`
+# l.1062-1113): in step-wise mode every ensemble Step calls Step() on EVERY member, finished ones included.  A finished
+# member has been Finalized (`_live` False), so its Step would re-decorate its objective (`_bootstrap_objective`), and a
+# decoration is not neutral (Nelder-Mead rebuilds its simplex under strict ranges, scipy_optimize.py l.201-208): only the
+# `_live` toggle around the member call and the member's own stop test keep a finished member as it is.  Whether that
+# matters for the RESULT depends on what the termination reads (the population: CandidateRelativeTolerance, the
+# default of Nelder-Mead; the energy history: ChangeOverGeneration), on the strict ranges, and on the members stopping
+# at DIFFERENT iterations - all of which the generator varies; the monitor compares the complete final state of every
+# member (population included) and the control-logic model (Model/Schedule.lean `ensMemberStep` / `ensMemberSolve`,
+# driver op `ensctl`) predicts, per ensemble call and member, the number of decorations and iterations and the flag.
+class EnsProbe:
+    """records, without touching /repo, what the ensemble's calls do to the members: class-level wrappers (installed for
+    the duration of one run) around `_decorate_objective` / `_Step` of the nested solver classes and around `_Step` /
+    `_Solve` of AbstractEnsembleSolver.  Events: ('call', kind) / (member id, 'D' | 'I') / ('end', flags)"""
+
+    def __init__(self):
+        self.log = []
+
+    def __enter__(self):
+        import mystic.scipy_optimize as SO, mystic.abstract_ensemble_solver as AE
+        log = self.log
+        self.saved = []
+
+        def wrap(cls, name, make):
+            own = name in cls.__dict__             # Powell inherits `_decorate_objective`: the override is removed on exit
+            orig = getattr(cls, name)
+            self.saved.append((cls, name, orig, own))
+            setattr(cls, name, make(orig))
+
+        def mk_event(tag):
+            def make(orig):
+                def f(self_, *a, **k):
+                    log.append((getattr(self_, "id", None), tag))
+                    return orig(self_, *a, **k)
+                return f
+            return make
+
+        def flags(ens):
+            out = []
+            for m in ens._allSolvers:
+                if m is None:
+                    out.append(None)
+                else:
+                    out.append((bool(m._live), len(m._stepmon) > 0))
+            return out
+
+        def mk_step(orig):
+            def f(self_, *a, **k):
+                log.append(("call", "step"))
+                r = orig(self_, *a, **k)
+                log.append(("end", flags(self_)))
+                return r
+            return f
+
+        def mk_solve(orig):
+            def f(self_, cost, ExtraArgs, **settings):
+                if settings.get("step"):
+                    return orig(self_, cost, ExtraArgs, **settings)
+                log.append(("call", "solve"))
+                r = orig(self_, cost, ExtraArgs, **settings)
+                log.append(("end", flags(self_)))
+                return r
+            return f
+        for cls in (SO.NelderMeadSimplexSolver, SO.PowellDirectionalSolver):
+            wrap(cls, "_decorate_objective", mk_event("D"))
+            wrap(cls, "_Step", mk_event("I"))
+        wrap(AE.AbstractEnsembleSolver, "_Step", mk_step)
+        wrap(AE.AbstractEnsembleSolver, "_Solve", mk_solve)
+        return self
+
+    def __exit__(self, *exc):
+        for cls, name, orig, own in reversed(self.saved):
+            if own:
+                setattr(cls, name, orig)
+            else:
+                delattr(cls, name)
+        return False
+
+    def calls(self, nmembers):
+        """[(kind, [(decorations so far, iterations so far, live, has step record) per member])] per ensemble call"""
+        out = []; nd = [0] * nmembers; ni = [0] * nmembers; kind = None
+        for ev in self.log:
+            if ev[0] == "call":
+                kind = ev[1]
+            elif ev[0] == "end":
+                fl_ = ev[1]
+                out.append((kind, [(nd[i], ni[i], fl_[i][0] if i < len(fl_) and fl_[i] else None,
+                                    fl_[i][1] if i < len(fl_) and fl_[i] else None) for i in range(nmembers)]))
+            elif isinstance(ev[0], int) and 0 <= ev[0] < nmembers:
+                if ev[1] == "D":
+                    nd[ev[0]] += 1
+                else:
+                    ni[ev[0]] += 1
+        return out
+
+
+def ens_termination(t):
     import mystic.termination as T
+    if t is None:
+        return None
+    if t[0] == "Or":
+        return T.Or(ens_termination(t[1]), ens_termination(t[2]))
+    if t[0] == "And":
+        return T.And(ens_termination(t[1]), ens_termination(t[2]))
+    return trace.make_termination(t)
+
+
+def run_ensemble(case, mapper, mode, probe=True):
+    """mode: 'solve' | 'solve-step' | 'step-loop' (SetObjective, then Step() until a message) | 'step-cost' (Step(cost)
+    until a message) | ['steps-solve', j] (j Steps, then Solve(): step-wise all the way, the step switch is sticky) |
+    ['steps-whole', j] (j Steps, then Solve(step=False): the members are finished off in run-to-completion mode)"""
+    from mystic.solvers import LatticeSolver, BuckshotSolver, SparsitySolver, NelderMeadSimplexSolver, PowellDirectionalSolver
+    from mystic.ensemble import MixedSolver
+    from mystic.monitors import Monitor
     seed = case["rng_seed"]
     _random.seed(seed); np.random.seed(seed % (2 ** 31))
     dim = case["dim"]
@@ -1315,92 +1470,320 @@ def run_ensemble(case, mapper, mode):
 
     def cost(x):
         return dsl.ev(e, vec(x))
-    s = LatticeSolver(dim, nbins=case["n"]) if case["kind"] == "Lattice" else BuckshotSolver(dim, npts=case["n"])
-    s.SetNestedSolver(NelderMeadSimplexSolver if case["nested"] == "NM" else PowellDirectionalSolver)
-    s.SetStrictRanges(list(case["lo"]), list(case["hi"]))
-    s.SetEvaluationMonitor(Monitor()); s.SetGenerationMonitor(Monitor())
-    s.SetEvaluationLimits(case["maxiter"], case["maxfun"])
-    t = case["term"]
-    s.SetTermination(T.NormalizedChangeOverGeneration(t[1], t[2]) if t[0] == "NCOG" else T.ChangeOverGeneration(t[1], t[2]))
-    if case.get("penalty") is not None:
-        pe = case["penalty"]
-        s.SetPenalty(lambda x: dsl.ev(pe, vec(x)))
+    if case["kind"] == "Lattice":
+        s = LatticeSolver(dim, nbins=case["n"])
+    elif case["kind"] == "Buckshot":
+        s = BuckshotSolver(dim, npts=case["n"])
+    elif case["kind"] == "Sparsity":
+        s = SparsitySolver(dim, npts=case["n"])
+    else:
+        s = MixedSolver(dim, samp=[("lattice", (list(case["n"][0]),)), ("buckshot", (case["n"][1],))])
+    ncls = NelderMeadSimplexSolver if case["nested"] == "NM" else PowellDirectionalSolver
+
+    def configure(o):
+        """the settings of the case, on the ensemble (which hands them to its members) or on a nested solver instance"""
+        if case.get("lo") is not None:
+            kw = {}
+            if case.get("tight") is not None:
+                kw["tight"] = case["tight"]
+            if case.get("clip") is not None:
+                kw["clip"] = case["clip"]
+            o.SetStrictRanges(list(case["lo"]), list(case["hi"]), **kw)
+        mons = case.get("monitors", "both")
+        if mons in ("both", "eval"):
+            o.SetEvaluationMonitor(Monitor())
+        if mons in ("both", "step"):
+            o.SetGenerationMonitor(Monitor())
+        o.SetEvaluationLimits(case["maxiter"], case["maxfun"])
+        t = ens_termination(case["term"])
+        if t is not None:
+            o.SetTermination(t)
+        if case.get("penalty") is not None:
+            pe = case["penalty"]
+            o.SetPenalty(lambda x: dsl.ev(pe, vec(x)))
+        if case.get("constraints") is not None:
+            ce = case["constraints"]
+            o.SetConstraints(lambda x: dsl.con_apply(ce, vec(x)))
+    ncfg = case.get("nested_cfg", "class")
+    if ncfg == "class":
+        s.SetNestedSolver(ncls)
+    else:
+        # a CONFIGURED nested solver: the members are copies of it and keep ITS settings; with or without its objective
+        inst = ncls(dim)
+        configure(inst)
+        if ncfg == "instance+objective":
+            inst.SetObjective(cost)
+        s.SetNestedSolver(inst)
+    configure(s)
     if mapper is not None:
         s.SetMapper(mapper)
-    nstep = 0
-    if mode == "solve":
-        s.Solve(cost)
-    elif mode == "solve-step":
-        s.Solve(cost, step=True)
-    else:
-        s.SetObjective(cost)
-        while not s.Step() and nstep < 20000:
-            nstep += 1
-    members = [(vec(m.bestSolution), float(m.bestEnergy), int(m.generations), int(m.evaluations), [float(v) for v in m._stepmon._y])
-               for m in s._allSolvers]
+    def drive():
+        nstep = 0
+        if mode == "solve":
+            s.Solve(cost)
+        elif mode == "solve-step":
+            s.Solve(cost, step=True)
+        elif mode == "step-loop":
+            s.SetObjective(cost)
+            while not s.Step() and nstep < 20000:
+                nstep += 1
+        elif mode == "step-cost":
+            while not s.Step(cost) and nstep < 20000:
+                nstep += 1
+        else:
+            for _ in range(int(mode[1])):
+                if s.Step(cost):
+                    return
+            if mode[0] == "steps-solve":
+                s.Solve(cost)
+            else:
+                s.Solve(cost, step=False)
+    pr = EnsProbe()
+    try:
+        with pr:
+            drive()
+    finally:
+        if hasattr(mapper, "close"):
+            mapper.close()
+    members = []
+    for m in s._allSolvers:
+        members.append({"bestSolution": vec(m.bestSolution), "bestEnergy": float(m.bestEnergy), "generations": int(m.generations),
+                        "evaluations": int(m.evaluations), "stepmon_y": [float(v) for v in m._stepmon._y],
+                        "stepmon_x": [vec(v) for v in m._stepmon._x], "n_evalmon": len(m._evalmon),
+                        "population": [vec(p) for p in m.population], "popEnergy": vec(m.popEnergy),
+                        "live": bool(m._live), "message": m.Terminated(info=True)})
     return {"bestSolution": vec(s.bestSolution), "bestEnergy": float(s.bestEnergy), "generations": int(s.generations),
             "evaluations": int(s.evaluations), "total_evaluations": int(s._total_evals), "best_id": s._is_best(),
             "members": members, "n_stepmon": len(s._stepmon), "stepmon_y": [float(v) for v in s._stepmon._y],
-            "n_evalmon": len(s._evalmon), "message": s.Terminated(info=True)}
+            "n_evalmon": len(s._evalmon), "message": s.Terminated(info=True),
+            "population": [vec(p) for p in s.population], "popEnergy": vec(s.popEnergy)}, pr.calls(len(members))
+
+
+ENS_KEYS = ("bestSolution", "bestEnergy", "generations", "evaluations", "total_evaluations", "best_id", "n_stepmon",
+            "stepmon_y", "n_evalmon", "message")
+ENS_STATE = ("population", "popEnergy")
+MEMBER_RESULT = ("bestSolution", "bestEnergy", "generations", "evaluations", "stepmon_y", "stepmon_x", "n_evalmon", "message")
+MEMBER_STATE = ("population", "popEnergy", "live")
 
 
 def ens_case(rng, tier):
     dim = rng.randint(1, 3)
     cost = solvergen.gen_cost(rng, dim, allow_vector=False)[1]
     x0 = [common.dyadic(rng, -2, 2, 4) for _ in range(dim)]
-    kind = rng.choice(["Lattice", "Buckshot"])
-    n = rng.randint(2, 5) if kind == "Buckshot" else rng.choice([2, 3, 4, 6] if dim > 1 else [2, 3, 4])
-    return {"kind": kind, "nested": rng.choice(["NM", "Powell"]), "dim": dim, "n": n, "cost": cost,
-            "lo": [v - rng.choice([1.0, 3.0]) for v in x0], "hi": [v + rng.choice([1.5, 3.5]) for v in x0],
-            "maxiter": rng.choice([None, 3, 8, 25]), "maxfun": rng.choice([None, None, 40, 150]),
-            "term": rng.choice([("NCOG", 1e-4, 3), ("NCOG", 1e-3, 2), ("COG", 1e-6, 4)]),
-            "penalty": solvergen.gen_penalty(rng, dim) if rng.random() < 0.3 else None,
-            "rng_seed": rng.randrange(2 ** 31)}
+    kind = rng.choice(["Lattice"] * 6 + ["Buckshot"] * 6 + ["Mixed"] * 2 + (["Sparsity"] if tier == "thorough" else []))
+    if kind == "Buckshot":
+        n = rng.randint(2, 5)
+    elif kind == "Sparsity":
+        n = rng.randint(2, 3)            # its starting points come from a differential-evolution run per point (slow)
+    elif kind == "Mixed":
+        n = ([rng.choice([1, 2])] + [1] * (dim - 1), rng.randint(1, 3))      # lattice bins + buckshot points
+    else:
+        n = rng.choice([2, 3, 4, 6] if dim > 1 else [2, 3, 4])
+    nested = rng.choice(["NM", "NM", "Powell"])
+    case = {"kind": kind, "nested": nested, "dim": dim, "n": n, "cost": cost, "rng_seed": rng.randrange(2 ** 31)}
+    # the nested solver: a class (configured by the ensemble), or a configured instance with / without its objective
+    case["nested_cfg"] = rng.choice(["class"] * 7 + ["instance+objective"] * 2 + ["instance"])
+    # strict ranges: mostly on (the decoration of a Nelder-Mead member then rebuilds / clips), sometimes off
+    if rng.random() < 0.8:
+        case["lo"] = [v - rng.choice([1.0, 3.0]) for v in x0]; case["hi"] = [v + rng.choice([1.5, 3.5]) for v in x0]
+        case["tight"], case["clip"] = rng.choice([(None, None), (None, None), (None, None), (True, None), (None, True), (True, True)])
+    else:
+        case["lo"] = case["hi"] = None
+    # what the stop reads: the energy history (COG / NCOG / VTR), the population (CRT = Nelder-Mead's own default), both,
+    # or the ensemble's default; limits mostly wide, so that the members stop by themselves and at different iterations
+    tk = rng.random()
+    crt = ("CRT", rng.choice([1e-1, 1e-2, 1e-3, 1e-4]), rng.choice([1e-1, 1e-2, 1e-3, 1e-4]))
+    cog = rng.choice([("NCOG", 1e-6, 5), ("NCOG", 1e-4, 8), ("NCOG", 1e-3, 2), ("COG", 1e-6, 4), ("COG", 1e-8, 6), ("COG", 1e-4, 8)])
+    if tk < 0.34 and nested == "NM":
+        case["term"] = crt
+    elif tk < 0.46 and nested == "NM":
+        case["term"] = ("Or", crt, cog) if rng.random() < 0.5 else ("And", crt, cog)
+    elif tk < 0.56:
+        case["term"] = None
+    elif tk < 0.64:
+        case["term"] = ("Or", ("VTR", rng.choice([1e-2, 0.5]), 0.0), cog)
+    else:
+        case["term"] = cog
+    wide = rng.random() < 0.8
+    case["maxiter"] = rng.choice([None, None, 50, 90]) if wide else rng.choice([3, 8, 25])
+    case["maxfun"] = rng.choice([None, None, None, 400]) if wide else rng.choice([None, 40, 150])
+    if case["lo"] is None and case["maxiter"] is None:
+        case["maxiter"] = rng.choice([40, 90])            # the default box is +-1000: keep the runs short
+    case["penalty"] = solvergen.gen_penalty(rng, dim) if rng.random() < 0.3 else None
+    box = (case["lo"], case["hi"]) if case["lo"] is not None else None
+    case["constraints"] = solvergen.gen_constraints(rng, dim, box) if rng.random() < 0.25 else None
+    case["monitors"] = rng.choice(["both", "both", "both", "step", "eval", "none"])
+    case["steps_before"] = rng.choice([1, 2, 3, 5, 9, 17])
+    return case
+
+
+def ens_diff(base, r):
+    """(ensemble keys that differ, [(member index, keys)] in results, [(member index, keys)] in state)"""
+    def ne(a, b):
+        return json.dumps(jsonable(a)) != json.dumps(jsonable(b))
+    dk = [kk for kk in ENS_KEYS if ne(base[kk], r[kk])]
+    if len(base["members"]) != len(r["members"]):
+        return dk + ["members"], [], []
+    dr = []; ds = []
+    k0 = [kk for kk in ENS_STATE if ne(base[kk], r[kk])]
+    if k0:
+        ds.append((None, k0))
+    for i, (a, b) in enumerate(zip(base["members"], r["members"])):
+        k1 = [kk for kk in MEMBER_RESULT if ne(a[kk], b[kk])]
+        k2 = [kk for kk in MEMBER_STATE if ne(a[kk], b[kk])]
+        if k1:
+            dr.append((i, k1))
+        if k2:
+            ds.append((i, k2))
+    return dk, dr, ds
+
+
+def ensctl_request(n_iters, calls):
+    return "C07 ensctl (n %s) (calls (%s)) (fuel 100000)" % (common.nl(n_iters), " ".join(k for k, _ in calls))
 
 
 def ens_stream(seed, shard, ncases, tier, hist, findings, samples, ks=None):
     evals = 0; nontrivial = 0
+    lines = []; pending = []
+
+    def bump(key, n=1):
+        hist[key] = hist.get(key, 0) + n
     for k in (range(ncases) if ks is None else ks):
         rng = case_rng(PID + "/ens", seed, shard, k)
         case = ens_case(rng, tier)
         meta = {"stream": "ens", "seed": seed, "shard": shard, "k": k, "tier": tier, "case": case}
         try:
-            base = run_ensemble(case, None, "solve")
+            base, bcalls = run_ensemble(case, None, "solve")
         except Exception as exc:
-            hist["ens:raised:%s" % type(exc).__name__] = hist.get("ens:raised:%s" % type(exc).__name__, 0) + 1
+            bump("ens:raised:%s" % type(exc).__name__)
             continue
         evals += 1
-        hist["ens:%s:%s" % (case["kind"], case["nested"])] = hist.get("ens:%s:%s" % (case["kind"], case["nested"]), 0) + 1
-        if len(base["members"]) >= 2 and base["total_evaluations"] > 3 * len(base["members"]):
+        tname = "default" if case["term"] is None else case["term"][0]
+        cfgtag = "%s:%s:%s:%s" % (case["kind"], case["nested"], "ranges" if case["lo"] is not None else "noranges", tname)
+        bump("ens:" + cfgtag)
+        bump("ens-nested:%s:%s" % (case["nested"], case.get("nested_cfg", "class")))
+        bump("ens-monitors:%s" % case["monitors"])
+        if case["constraints"] is not None:
+            bump("ens:with-constraints")
+        nm = len(base["members"])
+        # iterations each member performed in the run-to-completion run (the oracle of the control-logic model)
+        n_iters = [c[1] for c in bcalls[-1][1]] if bcalls else [0] * nm
+        spread = len(set(n_iters)) > 1
+        bump("ens:members-stop-at-%s" % ("different-iterations" if spread else "the-same-iteration"))
+        if spread:
+            bump("ens:stop-spread:%s:%s:%s" % (case["nested"], "ranges" if case["lo"] is not None else "noranges",
+                                                "pop" if tname in ("CRT", "And") or (tname == "Or" and case["term"][1][0] == "CRT") else "hist"))
+        if nm >= 2 and base["total_evaluations"] > 3 * nm and spread:
             nontrivial += 1
-        if len(set(m[1] for m in base["members"])) < len(base["members"]):
-            hist["ens:tied-members"] = hist.get("ens:tied-members", 0) + 1
+        if len(set(m["bestEnergy"] for m in base["members"])) < nm:
+            bump("ens:tied-members")
+        j = case["steps_before"]
+        longest = max(n_iters) if n_iters else 0
         variants = [("python_map", None, "solve-step"), ("python_map", None, "step-loop"),
-                    ("reversed", reversed_map(), "solve"), ("shuffled", shuffled_map(k), "step-loop"),
-                    ("threads", thread_map(3), "solve"), ("threads", thread_map(3), "solve-step")]
-        if k % 2 == 0:
+                    ("python_map", None, ["steps-solve", j]), ("python_map", None, ["steps-whole", j])]
+        rot = [("python_map", None, "step-cost"), ("reversed", reversed_map(), "solve"), ("shuffled", shuffled_map(k), "step-loop"),
+               ("threads", thread_map(3), "solve"), ("threads", thread_map(3, keep=True), "solve-step"),
+               ("reversed", reversed_map(), ["steps-whole", j]), ("shuffled", shuffled_map(k + 1), "solve-step"),
+               ("dillcopy", dillcopy_map(), "step-loop"), ("threads", thread_map(2, keep=True), ["steps-whole", j])]
+        slow_start = case["kind"] == "Sparsity"        # its `_InitialPoints` is a differential-evolution run per point, in every run
+        variants += [rot[(k + i) % len(rot)] for i in range(1 if slow_start else (3 if tier == "quick" else 5))]
+        # maps through which the members travel as dill pickles (forked workers: one fork per worker and map call): the
+        # step-wise schedules only where the run is short
+        if longest > 14:
+            variants = [v if v[0] != "dillcopy" else ("reversed", reversed_map(), "step-loop") for v in variants]
+        if k % 2 == 0 and not slow_start:
             variants.append(("processes", fork_map(3, use_dill=True), "solve"))
-        if k % 4 == 0:
+        if k % 4 == 0 and longest <= 14 and not slow_start:
             variants.append(("processes", fork_map(2, use_dill=True), "step-loop"))
+        if k % 4 == 2 and j <= 5 and not slow_start:
+            variants.append(("processes", fork_map(2, use_dill=True), ["steps-whole", j]))
+        if bcalls:
+            lines.append(ensctl_request(n_iters, bcalls)); pending.append(("python_map", "solve", bcalls, n_iters, meta))
+        nbad = 0; instance_reported = 0
         for name, mp, mode in variants:
+            if nbad >= 2:
+                break              # two failing schedules of one case are reported; the rest would repeat them
+            mtag = mode if isinstance(mode, str) else mode[0]
             try:
-                r = run_ensemble(case, mp, mode)
+                r, calls = run_ensemble(case, mp, mode)
             except Exception as exc:
                 c = dict(meta); c["map"] = name; c["mode"] = mode
-                findings.append(Finding("monitor", "ens/%s/%s/%s/%s/raised" % (case["kind"], case["nested"], name, mode),
+                if (case.get("nested_cfg") == "instance" and mode != "solve" and isinstance(exc, (TypeError, RuntimeError))
+                        and "'NoneType' object is not callable" in str(exc)):
+                    # known finding (known_findings.d/C07.json): a configured nested solver INSTANCE that has no objective
+                    # of its own gets the ensemble's objective in run-to-completion mode only (`_solve` l.781-782
+                    # "HACK for configured NestedSolver"); `_step` has no such line and the member's first Step calls None.
+                    # Strongest true statement kept under check: with the objective set on the instance (nested_cfg
+                    # 'instance+objective') every schedule agrees; here every step-wise schedule fails the same way, at once.
+                    bump("ens:instance-without-objective:step-wise-raises")
+                    if instance_reported == 0:
+                        findings.append(Finding("monitor", "ens/configured-nested-instance-without-objective/step-wise-raises-TypeError",
+                                                "Solve() with python_map returns (bestEnergy %r after %d evaluations) but %s with the %s map raises %r: the members are "
+                                                "copies of a configured %s instance that was given no objective" % (
+                                                    base["bestEnergy"], base["total_evaluations"], mode, name, exc, case["nested"]), c))
+                    instance_reported += 1
+                    continue
+                nbad += 1
+                findings.append(Finding("monitor", "ens/%s/%s/%s/%s/raised" % (case["kind"], case["nested"], name, mtag),
                                         "the ensemble raised %r" % (exc,), c)); continue
-            hist["ens-runs:%s:%s" % (name, mode)] = hist.get("ens-runs:%s:%s" % (name, mode), 0) + 1
-            d = [kk for kk in base if json.dumps(jsonable(base[kk])) != json.dumps(jsonable(r[kk]))]
-            if d:
+            bump("ens-runs:%s:%s" % (name, mtag))
+            dk, dr, ds = ens_diff(base, r)
+            if dk or dr or ds:
+                nbad += 1
                 c = dict(meta); c["map"] = name; c["mode"] = mode
-                c["base"] = {kk: base[kk] for kk in d if kk != "members"}; c["other"] = {kk: r[kk] for kk in d if kk != "members"}
-                findings.append(Finding("monitor", "ens/%s/%s/%s/%s" % (case["kind"], case["nested"], name, mode),
-                                        "%s differ between Solve with python_map and %s with the %s map: %s" % (
-                                            ", ".join(d), mode, name, "; ".join("%s %r vs %r" % (kk, base[kk], r[kk]) for kk in d if kk != "members")[:600]), c))
-        if len(samples) < 1:
-            samples.append({"stream": "ens", "case": case, "result": {kk: base[kk] for kk in base if kk != "members"}})
-    return evals, nontrivial
-
+                c["base"] = {kk: base[kk] for kk in dk if kk != "members"}; c["other"] = {kk: r[kk] for kk in dk if kk != "members"}
+                def side(o, i, q):
+                    return o[q] if i is None else o["members"][i][q]
+                c["member_diffs"] = [(i, kk, {q: side(base, i, q) for q in kk}, {q: side(r, i, q) for q in kk}) for i, kk in (dr + ds)[:3]]
+                if dk or dr:
+                    clause = "result"
+                    desc = "; ".join(["%s %r vs %r" % (kk, base[kk], r[kk]) for kk in dk if kk != "members"] +
+                                     ["member %d %s %r vs %r" % (i, q, base["members"][i][q], r["members"][i][q]) for i, kk in dr[:2] for q in kk[:3]])
+                else:
+                    clause = "member-state"
+                    desc = "; ".join("%s %s %r vs %r" % ("the ensemble's" if i is None else "member %d" % i, q, side(base, i, q), side(r, i, q))
+                                     for i, kk in ds[:2] for q in kk[:2])
+                findings.append(Finding("monitor", "ens/%s/%s/%s/%s/%s/%s" % (
+                    case["kind"], case["nested"], "ranges" if case["lo"] is not None else "noranges", name, mtag, clause),
+                    "Solve with python_map and %s with the %s map leave different %s (members stop after %r iterations): %s" % (
+                        mode, name, "results" if clause == "result" else "member states (same reported results)", n_iters, desc[:900]), c))
+            # the control-logic model: what every ensemble call did to every member (in-process maps see the events)
+            if name != "processes" and calls:
+                lines.append(ensctl_request(n_iters, calls)); pending.append((name, mode, calls, n_iters, meta))
+        if len(samples) < 1 and spread:
+            samples.append({"stream": "ens", "case": case, "member_iterations": n_iters,
+                            "result": {kk: base[kk] for kk in ("bestSolution", "bestEnergy", "generations", "evaluations", "message")}})
+    replies = leandrv.run_driver(lines) if lines else []
+    for line, rep, (name, mode, calls, n_iters, meta) in zip(lines, replies, pending):
+        mtag = mode if isinstance(mode, str) else mode[0]
+        bump("ens-model:%s:%s" % (name, mtag))
+        r = common.parse_reply(rep)
+        c = dict(meta); c["map"] = name; c["mode"] = mode; c["request"] = line[:3000]; c["model_reply"] = rep[:3000]
+        if r[0] != "ok":
+            findings.append(Finding("correspondence", "ens/ctl/model-%s" % r[0], "model replied %r" % (rep[:200],), c)); continue
+        mcalls = r[1]["calls"]; mall = r[1]["all"]
+        bad = None
+        if len(mcalls) != len(calls):
+            bad = ("length", "model has %d calls, observed %d" % (len(mcalls), len(calls)))
+        for ci, (mc, (kind, obs)) in enumerate(zip(mcalls, calls)):
+            if bad:
+                break
+            for i, (mm, ob) in enumerate(zip(mc, obs)):
+                want = (int(mm[0]), int(mm[1]), mm[2] == "true")
+                got = (ob[0], ob[1], ob[2])
+                if want != got:
+                    fld = "decorations" if want[0] != got[0] else ("iterations" if want[1] != got[1] else "live")
+                    bad = (fld, "ensemble call %d (%s), member %d (stops after %d iterations): model (decorations, iterations, live) = %r, implementation %r"
+                           % (ci, kind, i, n_iters[i], want, got))
+                    break
+        if not bad and mall and calls:
+            # the driving loop ended exactly when the model's ensemble first reports every member terminated
+            first = next((q for q, v in enumerate(mall) if v == "true"), None)
+            if mtag in ("solve-step", "step-loop", "step-cost") and first != len(calls) - 1:
+                bad = ("stop", "the ensemble stopped after %d calls, the model's members are all terminated after call %r" % (len(calls), first))
+        if bad:
+            findings.append(Finding("correspondence", "ens/ctl/%s/model-diverges/%s" % (mtag, bad[0]), "%s map, %s: %s" % (name, mode, bad[1]), c))
+    return evals, nontrivial, len(lines)
 
 
 # =====================================================================================================
@@ -1493,11 +1876,11 @@ def run_shard(pid, seed, shard, ncases, tier, extra):
     n2, nt2 = timed("perm", perm_stream, max(1, int(b["perm"] * scale)))
     n5, nt5 = timed("live", live_stream, max(1, int(b["live"] * scale)))
     n3, nt3, l3 = timed("map", map_stream, max(1, int(b["map"] * scale)))
-    n4, nt4 = timed("ens", ens_stream, max(1, int(b["ens"] * scale)))
+    n4, nt4, l4 = timed("ens", ens_stream, max(1, int(b["ens"] * scale)))
     n6, nt6 = timed("seed", seed_stream, max(1, int(b.get("seed", 6) * scale)))
     n1 += n6; nt1 += nt6; hist["cases:seed"] = n6
     hist["cases:cfg"] = n1 - n6; hist["cases:perm"] = n2; hist["cases:map"] = n3; hist["cases:ens"] = n4; hist["cases:live"] = n5
-    return {"evaluations": n1 + n2 + n3 + n4 + n5, "nontrivial": nt1 + nt2 + nt3 + nt4 + nt5, "model_lines": l1 + l3,
+    return {"evaluations": n1 + n2 + n3 + n4 + n5, "nontrivial": nt1 + nt2 + nt3 + nt4 + nt5, "model_lines": l1 + l3 + l4,
             "findings": findings, "samples": samples, "hist": hist}
 
 
@@ -1530,9 +1913,17 @@ def main(tier, seed):
             "(abs-fold, sort, clamp): per-op population, energies, best, counters, step monitor, stop message and final random "
             "state compared; the Lean step2Proc (procedures on mutable work items, sharing discipline of the map) replayed with "
             "the evaluation order the map really used: states and evaluation log entry by entry (non-trivial = >= 3 generations). "
-            "ens: Lattice/Buckshot x NelderMead/Powell members: Solve vs Solve(step=True) vs Step loop, under reversed / shuffled / "
-            "thread / forked-process(dill) maps: best, counters, every member's result and history (non-trivial = >= 2 members, > 3 "
-            "evaluations each).")
+            "ens: Lattice / Buckshot / Mixed (thorough: Sparsity) x NelderMead / Powell members, the nested solver given as a class "
+            "or as a configured instance (with / without its own objective), strict ranges on (80%, tight / clip variants) or "
+            "off, penalty / constraints / any subset of the two monitors, termination reading the energy history (COG, NCOG, "
+            "VTR), the population (CandidateRelativeTolerance) or both (Or / And) or the ensemble's default, limits mostly wide so "
+            "that the members stop by themselves at DIFFERENT iterations (counted: ens:members-stop-at-*): Solve vs "
+            "Solve(step=True) vs Step() loop vs Step(cost) loop vs j Steps then Solve() vs j Steps then Solve(step=False), under "
+            "python_map / reversed / shuffled / thread / dill-copying / forked-process(dill) maps: best, counters, message, every "
+            "member's result, history, message AND complete state (population, energies, _live); per ensemble call and member "
+            "the number of decorations and iterations and the _live flag against the Lean control-logic model `ensctl` (oracle: "
+            "the iterations each member performs in the run-to-completion run) (non-trivial = >= 2 members, > 3 evaluations each, "
+            "members stopping at different iterations).")
     tb = ["Lean 4.33 kernel; axioms per theorem under coverage.theorems (subset of propext, Classical.choice, Quot.sound)",
           "hand-written models Model/Config.lean (Set* footprints, deferred decoration) and Model/Schedule.lean (evaluation order, "
           "mutable work items, schedules) tied to /repo by the differential runs counted under histogram cfg:*, cfg-boot:* and "
@@ -1542,7 +1933,11 @@ def main(tier, seed):
           "monitors / callables are identified by object identity through a harness registry; `_strictbounds` is observed by its "
           "action on one exterior point (identity / clips / random); a decoration is observed as a new wrapped objective in `_cost[0]`",
           "the deferred decoration is modelled for AbstractSolver / DE / DE2 / Powell; NelderMead's own `_decorate_objective` (simplex "
-          "rebuilt) is covered by the perm / live monitors only"]
+          "rebuilt) is covered by the perm / live monitors only",
+          "ensembles: the member algorithm is a parameter of the control-logic model (any decoration / iteration / Finalize / "
+          "verdict); in the correspondence the verdict is the oracle 'terminated after n_i iterations' observed in the "
+          "run-to-completion run, decorations / iterations are observed through class-level wrappers installed by the harness "
+          "for the duration of a run (in-process maps only: events inside forked workers are not seen)"]
     assumptions = ["cost, penalty and constraints are deterministic functions of the CONTENTS of the vector they receive that do not touch the "
                    "global random source (they may modify that vector in place)",
                    "the supplied map returns results in input order (all maps of the check do)",
